@@ -1922,6 +1922,7 @@ func (t *tScreen) inputLoop(stopQ chan struct{}) {
 				select {
 				case t.eventQ <- NewEventError(e):
 				case <-t.quit:
+				case <-stopQ:
 				}
 			}
 			return
